@@ -36,10 +36,12 @@ TidToks == {"tid", "tidx", "neg", "huge", "float", "word"}
 BreakToks == {"sl", "slx", "sln", "slh", "slw", "sle", "cl", "sll", "src", "srclong", "word", "num", "neg"}    \* num: 42 (no colon at all)
 ContToks == {"resume", "stepin", "stepover", "stepout", "STEPIN", "word"}
 \*   var a variable of the suspended thread (x)   novar zz   badname 1x   expr 1+2   badexpr ((
+\*   rterr 1+"x" (parses, fails when evaluated)   listidx el.0 / listneg el.-1 (el is an empty list in state suspOdd)
 NameToks == {"var", "novar", "badname"}
-ExprToks == {"expr", "badexpr", "var", "word"}
+InjNameToks == NameToks \cup {"listidx", "listneg"}
+ExprToks == {"expr", "badexpr", "var", "word", "rterr"}
 BoolToks == {"true", "false", "word"}
-AllToks == TidToks \cup BreakToks \cup ContToks \cup NameToks \cup ExprToks \cup BoolToks
+AllToks == TidToks \cup BreakToks \cup ContToks \cup InjNameToks \cup ExprToks \cup BoolToks
 
 Commands == {"breakonstart", "break", "rmbreak", "disablebreak", "cont", "describe", "status", "extract", "inject", "lockstate", "nosuchcmd", ""}
 
@@ -78,7 +80,7 @@ ArgSets(c) ==
     [] c = "describe" -> <<TidToks, {"word", "tid"}>>
     [] c \in {"status", "lockstate", "nosuchcmd", ""} -> <<{"word", "tid"}, {"word"}>>
     [] c = "extract" -> <<TidToks, NameToks, NameToks \cup {"word"}, {"word"}>>
-    [] c = "inject" -> <<TidToks, NameToks, ExprToks, {"expr", "word"}>>
+    [] c = "inject" -> <<TidToks, InjNameToks, ExprToks, {"expr", "word"}>>
 
 InVectors(c, a) == LET S == ArgSets(c) IN Len(a) <= Len(S) /\ \A k \in 1..Len(a) : a[k] \in S[k]
 RECURSIVE Prod(_, _)
